@@ -4,10 +4,15 @@
 From Coq Require Extraction.
 From Coq Require Import ExtrOcamlBasic.
 From CP Require Import Bytes Runtime TimePb Schema Codec Decode WF RefSpec.
+From CP Require Import RapidGen.
 Extraction Language OCaml.
 Extraction "model.ml"
   Bytes.enc_varint Bytes.dec_varint Bytes.n2b Bytes.b2n
   Runtime.Sov Runtime.Soz Runtime.protowire_size Runtime.EncodeVarint Runtime.Skip
   TimePb.TsAdd TimePb.TsAddStd TimePb.TsCompare
   Codec.pulsar_marshal Codec.msg_size Codec.emit Codec.key_ltb Decode.pulsar_unmarshal Decode.empty_msg
-  WF.wf WF.wt_msg RefSpec.ref_marshal RefSpec.canon RefSpec.strip_unknown RefSpec.norm.
+  WF.wf WF.wt_msg RefSpec.ref_marshal RefSpec.canon RefSpec.strip_unknown RefSpec.norm
+  RapidGen.rapid_in_range RapidGen.rapid_in_range_at RapidGen.deep RapidGen.range_preds RapidGen.ann_ok RapidGen.code_variant
+  RapidGen.current RapidGen.repaired RapidGen.fmap_of_id RapidGen.gen RapidGen.utf8_preds RapidGen.timestamp_preds
+  RapidGen.duration_preds RapidGen.any_preds RapidGen.fieldmask_preds RapidGen.enum_preds RapidGen.no_empty_preds
+  RapidGen.disallow_nil_preds RapidGen.no_nil_elem_preds RapidGen.mapper_preds RapidGen.top_fuel.
